@@ -34,8 +34,13 @@ def main():
         m = json.load(open(mp))
         first, at = first_status(m)
         now = "caught" if m.get("caught_by") else "MISSED"
+        o = m.get("other_seed_evaluation")
+        if now == "MISSED" and o and o.get("caught_by"):
+            now = "caught with seed %s (default seed: missed)" % o["seed"]
+        if now == "MISSED" and m.get("questionable"):
+            now = "missed (see text)"
         n_first += first == "caught"
-        n_now += now == "caught"
+        n_now += now.startswith("caught")
         demo = "yes" if m.get("demo_confirms") else ("by hand" if m.get("demo_note") else "no")
         rows.append((m["id"], m.get("what", ""), m.get("needs", ""), demo, first, now, ", ".join(classes_of(m.get("checks"))[:4])))
     print("%d changes; caught by the checks as they were when the change was written: %d; caught now: %d.\n" % (len(rows), n_first, n_now))
